@@ -11,3 +11,5 @@ import LettreVerif.Props.C18
 import LettreVerif.Props.C10
 import LettreVerif.Props.C02
 import LettreVerif.Props.C12
+import LettreVerif.Props.C17
+import LettreVerif.Props.C01
